@@ -147,6 +147,8 @@ impl Frontend {
     }
 
     fn node(&self) -> MutexGuard<'_, FrontendInternal> {
+        #[cfg(feature = "verif-hooks")]
+        crate::verif::before_mutex(&self.node, "frontend.node.lock");
         self.node.lock().unwrap()
     }
 
